@@ -25,7 +25,7 @@ KINDS = {
 SAME = ["absent", "right", "subclass", "wrong", "falsy", "none"]
 PREF = ["absent", "right", "wrong"]
 WHERE = ["class", "createObjects", "base-class", "base-createObjects"]
-SIDE = ["novalue", "preset", "init", "private", "inherited", "inherited-preset", "also-ctor-param", "mixin-second-base"]
+SIDE = ["novalue", "preset", "init", "private", "inherited", "inherited-preset", "also-ctor-param", "mixin-second-base", "redeclared-narrower"]
 ENTITY = ["attr", "ctor", "mode"]
 
 PRELUDE = ""
@@ -121,6 +121,12 @@ def build_source(sc):
                 # the annotation comes from a mix-in that is not the first base of the component class
                 src += f"class CBase:\n    pass\nclass CMix:\n    {attr}: {ann}\n"
                 src += "class K_c0(CBase, CMix):\n"
+            elif sc["side"] == "redeclared-narrower":
+                # a base class annotates the attribute loosely (object); the component class re-declares it with the real type,
+                # which is the one that counts (typing.get_type_hints: the most derived annotation wins)
+                src += f"class CBase:\n    {attr}: object\n"
+                src += "class K_c0(CBase):\n"
+                body += f"    {attr}: {ann}\n"
             elif sc["side"] == "inherited-preset":
                 # the value is preset on a base class of the component (found through the MRO, not in the class itself)
                 src += f"class CRoot:\n    {attr}: {ann} = _mk('preset', {value_src(sc['kind'], 'right')})\nclass CBase(CRoot):\n    pass\n"
